@@ -17,7 +17,7 @@ From Coq Require Import List ZArith Bool String.
 From GoHls Require Import Lib.MuxSched Model.MuxConcSeq Model.MuxConcSpec Model.MuxConcPar
   Proofs.MuxConcSeqA Proofs.MuxConcSeqB Proofs.MuxConcSeqC
   Proofs.MuxConcInvA Proofs.MuxConcInvB Proofs.MuxConcInvC Proofs.MuxConcInvD
-  Proofs.MuxConcProg Proofs.MuxConcMain.
+  Proofs.MuxConcProg Proofs.MuxConcMain Tie.MuxConcTie Proofs.MuxConcTieRun.
 Import ListNotations.
 Local Open Scope Z_scope.
 
@@ -308,3 +308,10 @@ Theorem c06_hint_body : forall m prog reqs sched i r h,
       exists s, nth_error (m_streams (c_mux c)) k = Some s /\ s_closed s = false /\ id < nextPartID s.
 Proof. exact hint_body. Qed.
 Print Assumptions c06_hint_body.
+
+(* the macro schedules the correspondence run evaluates are ordinary schedules of the model:
+   every theorem above applies to the runs the tie compares with the real muxer *)
+Theorem c06_tie_schedules : forall items c,
+  exists sched, fold_left sitem_run items c = crun c sched.
+Proof. exact tie_schedule_is_schedule. Qed.
+Print Assumptions c06_tie_schedules.
